@@ -6,6 +6,15 @@ out=seeded/MATRIX.txt
 seeds="$@"; [ -z "$seeds" ] && seeds=$(ls seeded | grep -v MATRIX)
 for s in $seeds; do
   pid=$(python3 -c "import json;print(json.load(open('seeded/$s/meta.json'))['property'])")
+  if [ "$pid" = "none" ]; then
+    # behaviour-preserving change: every check must stay at exit 0
+    res=$(timeout 6000 bin/mutcheck.sh /verif/seeded/$s/patch.diff C01 C02 C03 C04 C05 C06 C07 C08 C09 C10 C11 C12 C13 C14 C15 C16 C17 C18 C19 C20 2>&1)
+    worst=$(echo "$res" | grep -E "^C[0-9]+ tier" | sed -e 's/.*exit=//' | sort -n | tail -1)
+    n=$(echo "$res" | grep -cE "^C[0-9]+ tier")
+    und=$(echo "$res" | grep -cE "^UNDECIDED")
+    echo "$s | all | worst exit=$worst over $n checks | undecided lines=$und | harmless change: must be 0" | tee -a $out
+    continue
+  fi
   res=$(timeout 3000 bin/mutcheck.sh /verif/seeded/$s/patch.diff $pid 2>&1)
   line=$(echo "$res" | grep -E "^C[0-9]+ tier" | tail -1)
   first=$(echo "$res" | grep -E "^VIOLATION" | head -1 | sed -e 's/.*obligation=//' | cut -c1-110)
